@@ -31,6 +31,7 @@ def cases(tier, seed):
     if tier == "quick":
         out += [("rewards", s) for s in F.sliced(F.K4(), seed % 16, 16)]
         out += [("rewards", s) for s in F.P_ALL]
+        out += [("rewards", s) for s in F.sliced(F.K5(), seed % 128, 128)]
         out += [("env", s) for s in F.sliced(F.K3(), seed % 3, 3)]
         out += [("env", s) for s in F.P_SMALL]
     else:
